@@ -129,6 +129,55 @@ theorem mk_ok {xs ys : List Rat} {xdim fdim : Rat} {o : Obj} (hmk : mk xs ys xdi
           simpa using this
 
 
+/-- proposed repair C01-2 (order test after the unit conversion, negated comparison): over the rationals the test gives
+    the same verdict before and after multiplying by a positive factor — the coded change is outcome-neutral in the model;
+    what it repairs (two products rounding onto each other, NaN) exists only in doubles and is judged by the oracle on the
+    implementation (props/c01.py, families `unitx`, `nan`) -/
+theorem strictlyIncreasing_map_mul_eq {c : Rat} (hc : 0 < c) : ∀ (l : List Rat),
+    strictlyIncreasing (l.map (· * c)) = strictlyIncreasing l
+  | [] => rfl
+  | [_] => rfl
+  | a :: b :: r => by
+    have ih := strictlyIncreasing_map_mul_eq hc (b :: r)
+    simp only [List.map] at ih
+    simp only [List.map, strictlyIncreasing, ih]
+    congr 1
+    exact decide_eq_decide.mpr (mul_lt_mul_iff_of_pos_right hc)
+
+theorem zip_rows (xs : List Rat) : ∀ (ys : List Rat), xs.length = ys.length →
+    (List.zipWith (fun a b => [a, b]) xs ys).any (fun r => decide (r.length ≠ 2)) = false
+    ∧ (List.zipWith (fun a b => [a, b]) xs ys).map (fun r => r.getD 0 0) = xs
+    ∧ (List.zipWith (fun a b => [a, b]) xs ys).map (fun r => r.getD 1 0) = ys := by
+  induction xs with
+  | nil => intro ys h; cases ys with
+    | nil => simp
+    | cons _ _ => simp at h
+  | cons a xs ih => intro ys h; cases ys with
+    | nil => simp at h
+    | cons b ys =>
+      obtain ⟨i1, i2, i3⟩ := ih ys (by simpa using h)
+      refine ⟨?_, ?_, ?_⟩
+      · simp only [List.zipWith, List.any_cons, i1]; simp
+      · simp only [List.zipWith, List.map_cons, i2]; rfl
+      · simp only [List.zipWith, List.map_cons, i3]; rfl
+
+/-- the table constructor on the rows `{x_i, y_i}` builds the object the list constructor builds -/
+theorem mkTable_zip (xs ys : List Rat) (h : xs.length = ys.length) (xdim fdim : Rat) :
+    mkTable (List.zipWith (fun a b => [a, b]) xs ys) xdim fdim = mk xs ys xdim fdim := by
+  obtain ⟨h1, h2, h3⟩ := zip_rows xs ys h
+  unfold mkTable
+  rw [h2, h3]
+  simp only [h1]
+  rfl
+
+theorem construct_eq_mk (ctor : Nat) (hc : ctor ≠ 3) (xs ys : List Rat) (h : xs.length = ys.length) (xdim fdim : Rat) :
+    construct ctor xs ys xdim fdim = mk xs ys xdim fdim := by
+  unfold construct
+  split
+  · simp only [h, if_true]; exact mkTable_zip xs ys h xdim fdim
+  · exact absurd rfl hc
+  · rfl
+
 /-! ### request level: what the driver runs for one `Interpolate` query -/
 
 theorem run1D_between_aux {xs ys : List Rat} {xdim fdim pref mul v : Rat} {o : Obj}
